@@ -1,10 +1,11 @@
 (* Extraction of the C18 model.  ExtrOcamlBasic only: bool, option, list,
    prod, unit, sumbool map to OCaml's; N / positive / nat stay inductive. *)
-From RsM Require Import Lib.MachInt Model.Btp Model.BtpSpec.
+From RsM Require Import Lib.MachInt Model.Btp Model.BtpSpec Model.BtpRing.
 Require Import ExtrOcamlBasic.
 Extraction Language OCaml.
 Extraction "model.ml"
   N.add N.mul N.div_eucl
   inner_new step run hdr_decode
   sys_fresh sys_established sys_step sys_run snap_of
-  mon_step mon_endpoint rs_init pmon_run mon_pair is_data_seg.
+  ring_new ring_push ring_pop ring_len ring_free ring_clear ring_is_full ring_is_empty
+  mon_step mon_endpoint rs_init pmon_run pmon_step ps_ok win_ok ps_init mon_pair is_data_seg.
